@@ -62,7 +62,7 @@ def replay(rec: Dict[str, Any]) -> List[Tuple[str, Dict[str, Any], str]]:
         # the same base three ways: parsed from text, built from its (string) tokens, and as returned by the
         # identity relative pointer "0" (MC_RelPointer's Identity invariant says that is the same pointer)
         base_toks = [t.replace("~1", "/").replace("~0", "~") for t in base.split("/")[1:]]
-        variants = [("", b0)]
+        variants = [("", b0), ("text-base:", base)]      # (the base may also be given as pointer text)
         try:
             variants.append(("from-parts:", JSONPointer.from_parts(base_toks, unicode_escape=False)))
             variants.append(("after-identity:", RelativeJSONPointer("0").to(b0)))
@@ -71,6 +71,8 @@ def replay(rec: Dict[str, Any]) -> List[Tuple[str, Dict[str, Any], str]]:
         for vname, b in variants:
             for how in ("rel.to", "ptr.to"):
                 try:
+                    if isinstance(b, str) and how == "ptr.to":
+                        continue
                     res = r.to(b, unicode_escape=ue) if how == "rel.to" else b.to(rel, unicode_escape=ue)
                 except RelativeJSONPointerError:
                     if rec["ok"]:
